@@ -135,3 +135,29 @@ SPEC_ENTRY = {
   'Example C18_txfail_nonvacuous : True.\nProof.\n  pose proof step_tx_refines_nonvacuous. pose proof connect_fail_nonvacuous. pose proof send_credit_request_fail_nonvacuous.\n'
   '  pose proof tx_history_runs. exact I.\nQed.'],
 }
+
+# ---- the monitors evaluated on the IMPLEMENTATION's observations, tied to the statements they stand for (Proofs/ConnMgrMonProofs.v):
+# ---- "meaning" = what a true verdict implies, for any input list; "holds_of_model" = no false alarm on code that behaves like the model
+SPEC_ENTRY['imports'] += [m for m in ['Extract.ConnMgrIO', 'Proofs.ConnMgrMonProofs'] if m not in SPEC_ENTRY['imports']]
+SPEC_ENTRY['theorems'] += [
+  ('C18_monitor_185x_meaning', 'Proofs/ConnMgrMonProofs.v', 'mon185x_meaning', 'kinds 1851..1862: [1] means the observed outs ARE enc_result of the specification sp_step on the decoded operation (count exact), spec state advanced by that step'),
+  ('C18_monitor_185x_holds_of_model', 'Proofs/ConnMgrMonProofs.v', 'mon185x_holds_of_model', 'model line k then monitor line k+50 on the model outs gives [1]; KeysUnique and R re-established (from C18_refines)'),
+  ('C18_monitor_187x_meaning', 'Proofs/ConnMgrMonProofs.v', 'mon187x_meaning', 'kinds 1871..1882: the same against sp_step_tx with the predicted fate of the transmission'),
+  ('C18_monitor_187x_holds_of_model', 'Proofs/ConnMgrMonProofs.v', 'mon187x_holds_of_model', '... except at the four open points (hypothesis of C18_txfail_refines)'),
+  ('C18_monitor_1890_meaning', 'Proofs/ConnMgrMonProofs.v', 'mon1890_meaning', 'probe: observed triples are present/established/available of the specification table, key by key; state unchanged'),
+  ('C18_monitor_1890_holds_of_model', 'Proofs/ConnMgrMonProofs.v', 'mon1890_holds_of_model', 'line 1840 then line 1890 gives [1] under R'),
+  ('C18_monitor_encoding_injective', 'Proofs/ConnMgrMonProofs.v', 'enc_result_inj', 'equal encodings: equal result and packet bytes'),
+  ('C18_monitor_encoding_injective_pkts', 'Proofs/ConnMgrMonProofs.v', 'enc_result_inj_pkts', '... equal packets for in-range headers'),
+  ('C18_monitor_decoder_table', 'Proofs/ConnMgrMonProofs.v', 'dec_op_table', 'what each operation line decodes to'),
+  ('C18_monitor_1891_meaning', 'Proofs/ConnMgrMonProofs.v', 'mon_frame_meaning', 'frame (iff): every row not carrying the named key has equal before and after probes'),
+  ('C18_monitor_1891_holds_of_model', 'Proofs/ConnMgrMonProofs.v', 'mon_frame_holds_of_model', 'from C18_isolation, any list of keys'),
+  ('C18_monitor_1892_meaning', 'Proofs/ConnMgrMonProofs.v', 'mon_known_meaning', 'iff: duplicate connect gives ConnectionExists, unknown connection gives NotConnected, nothing sent or created'),
+  ('C18_monitor_1892_holds_of_model_partial', 'Proofs/ConnMgrMonProofs.v', 'mon_known_holds_of_model_partial', 'connect and operations on an unknown key; MISSING: send .. force_close on a known key never return NotConnected'),
+  ('C18_monitor_1893_meaning', 'Proofs/ConnMgrMonProofs.v', 'mon_stock_meaning', 'held + pending = size'),
+  ('C18_monitor_1894_meaning', 'Proofs/ConnMgrMonProofs.v', 'mon_packet_meaning', 'true verdict implies packet_rule (all packet clauses); soundness only'),
+  ('C18_monitor_1895_meaning', 'Proofs/ConnMgrMonProofs.v', 'mon_recv_meaning', 'iff: min(n, avail) bytes; the connection disappears only when drained, with one RST'),
+  ('C18_monitor_1895_holds_of_model', 'Proofs/ConnMgrMonProofs.v', 'mon_recv_holds_of_model', 'every recv of the model (C18_recv, C18_missing_not_connected)'),
+  ('C18_monitor_1896_meaning', 'Proofs/ConnMgrMonProofs.v', 'mon_txfail_meaning', None),
+  ('C18_monitor_1897_meaning', 'Proofs/ConnMgrMonProofs.v', 'mon_send_credit_meaning', None),
+  ('C18_monitor_1898_meaning', 'Proofs/ConnMgrMonProofs.v', 'mon_shut_remembered_meaning', None),
+]
